@@ -536,6 +536,12 @@ class KvRun:
                     continue
                 exp[t] = want_t
                 obs, ids = obs2, ids2
+                if ok != st["ok"]:
+                    # the store took another ADMISSIBLE branch than the one the behaviour was generated with (e.g. a legal create
+                    # rejected by validation under unusual names): this step was judged on its own admissible outcome, but the
+                    # following rows (their admissible sets and `after` maps) were computed for the other branch - stop here
+                    self.log.append({"stopped": "admissible branch differs from the generated one at step %d" % (si + 1)})
+                    return
         except vlib.DriverDead as e:
             if e.kind == "hang":
                 raise vlib.Infra("driver hang in kv replay: %s" % e)
